@@ -50,3 +50,12 @@ Definition case_ok (c : nat * list nat * nat * nat) : bool :=
   | None => false
   end.
 Definition c02_mismatches := mism_from case_ok 0.
+
+(* the monitor's first phase against the start-event traces observed in the instance's stream: a case is
+   (number of start events, the start-event traces seen so far as (0 = own | 1 = foreign, index), 1 if a wait issued
+   when nothing moved any more said "complete") *)
+From BV Require Import Model.StartCount.
+Definition dec_src (p : nat * nat) : src := if fst p =? 0 then Own (snd p) else Foreign (snd p).
+Definition start_case_ok (c : nat * list (nat * nat) * nat) : bool :=
+  let '(kk, tr, verdict) := c in Bool.eqb (phase_one_done true kk (map dec_src tr)) (verdict =? 1).
+Definition c02_start_mismatches := mism_from start_case_ok 0.
